@@ -1,11 +1,102 @@
-import TucanProofs.Lemmas.Sort
-import TucanModel.Serialize
-/-! # C11 — property theorems (see DESIGN.md §5) -/
+import TucanProofs.Lemmas.ParserOutput
+import TucanProofs.Lemmas.RoundTripPipeline
+import TucanProofs.Lemmas.OracleNonempty
+/-!
+# C11 — any valid spelling of a molecule normalizes to its one canonical string
+
+`norm = serialize ∘ canonicalize ∘ parse`.  An accepted string is turned by the tree listener into a
+listener state (atoms of the formula, bonds, attribute records); `to_graph` builds the graph.  Two spellings
+of the same molecule — tuples reordered, a tuple's endpoints swapped, a tuple repeated, attribute blocks
+reordered or split (all with `π = id`), atoms renumbered inside an element block (`π` a permutation that
+moves atoms only inside blocks) — give listener states that correspond under `π`; the graphs are then
+`Iso SameIdent π` and C01 gives equal normal forms.
+-/
 namespace Tucan
 
-/-- The tuple list written by the serializer is a function of the *set* of bonds: any two listings of
-the same normalised bonds give the same sorted list. -/
-theorem C11_tuples_listing_independent {l₁ l₂ : List (Nat × Nat)} (h : l₁.Perm l₂) :
-    l₁.mergeSort leNN = l₂.mergeSort leNN := sortNN_perm_eq h
+/-- **Respelling.**  Spellings whose listener states correspond under a renumbering inside element blocks
+normalize to the same string, for every oracle meeting the bliss contract. -/
+theorem C11_respelling (O : CanonOracle) (st st' : ListenerState) (h : GoodState st) (h' : GoodState st')
+    (π : Nat → Nat)
+    (hlen : st'.atoms.length = st.atoms.length)
+    (hπ : ∀ i, i < st.atoms.length → π i < st.atoms.length)
+    (hinj : ∀ i j, i < st.atoms.length → j < st.atoms.length → π i = π j → i = j)
+    (hatoms : ∀ i, i < st.atoms.length → (sortAtomsByZ st'.atoms)[π i]? = (sortAtomsByZ st.atoms)[i]?)
+    (hextra : ∀ i, i < st.atoms.length →
+      (extraOf st' (π i)).mass = (extraOf st i).mass ∧ (extraOf st' (π i)).rad = (extraOf st i).rad)
+    (hbonds : ∀ i j, i < st.atoms.length → j < st.atoms.length →
+      ((((i : Int), (j : Int)) ∈ st.bonds ∨ ((j : Int), (i : Int)) ∈ st.bonds) ↔
+       (((π i : Int), (π j : Int)) ∈ st'.bonds ∨ ((π j : Int), (π i : Int)) ∈ st'.bonds)))
+    (g g' : Graph) (hg : toGraph st = .ok g) (hg' : toGraph st' = .ok g') (hchem : g.Chem)
+    (s s' : Str) (hs : tucanOf O.order g = .ok s) (hs' : tucanOf O.order g' = .ok s') : s = s' := by
+  have iso := toGraph_respell st st' h h' π hlen hπ hinj hatoms hextra hbonds g g' hg hg'
+  obtain ⟨g0, hg0, _, gw, gs, _, _⟩ := toGraph_spec st h
+  obtain ⟨g0', hg0', _, gw', gs', _, _⟩ := toGraph_spec st' h'
+  rw [hg] at hg0; injection hg0 with e; subst e
+  rw [hg'] at hg0'; injection hg0' with e'; subst e'
+  exact tucan_invariant O iso hchem gw gs gw' gs' hs hs'
+
+/-- every accepted string denotes a molecule graph: a `GoodState` listener state, and a well-formed simple
+graph of chemistry-level atoms on the labels `0 … n-1` -/
+theorem C11_accepted_string_denotes_molecule (s : Str) (g : Graph) (h : graphFromTucan s = .ok g) :
+    (∃ toks ast st, lex s = some toks ∧ parseTucan toks = some ast ∧ toGraph st = .ok g ∧ GoodState st) ∧
+    g.WF ∧ g.Simple ∧ g.MolAtoms := by
+  obtain ⟨toks, ast, st, h1, h2, _, _, _, h6, h7⟩ := graphFromTucan_state s g h
+  obtain ⟨gw, gs, gm, _, _⟩ := graphFromTucan_mol s g h
+  exact ⟨⟨toks, ast, st, h1, h2, h6, h7⟩, gw, gs, gm⟩
+
+/-- **Idempotence.**  `norm (norm s) = norm s`: the canonical string of any accepted string parses, and
+normalizing it again returns the identical string. -/
+theorem C11_idempotent (O : CanonOracle) (s0 : Str) (g : Graph) (hparse : graphFromTucan s0 = .ok g)
+    (hsize : (natRepr (g.numberOfNodes + 1)).length ≤ intMaxStrDigits)
+    (s : Str) (h : tucanOf O.order g = .ok s) :
+    ∃ g2, graphFromTucan s = .ok g2 ∧ tucanOf O.order g2 = .ok s := by
+  obtain ⟨gw, gs, gm, _, _⟩ := graphFromTucan_mol s0 g hparse
+  obtain ⟨H, τ, hp, iso, hl, Hw, Hs, Hm⟩ := pipeline_roundtrip O.order O.perm g gw gs gm hsize s h
+  refine ⟨H, hp, ?_⟩
+  have hchem : g.Chem := fun a ha x hx => (gm a ha x hx).chem
+  have hne : H.labels ≠ [] := by
+    intro he
+    have hn0 : g.numberOfNodes = 0 := by
+      rw [hl] at he
+      cases hn : g.numberOfNodes with
+      | zero => rfl
+      | succ k => rw [hn] at he; simp [List.range_succ] at he
+    have hg : g.labels = [] := by
+      have : g.labels.length = 0 := by simpa [Graph.numberOfNodes, Graph.labels] using hn0
+      exact List.eq_nil_of_length_eq_zero this
+    -- the pipeline does not return on the empty graph
+    unfold tucanOf at h
+    cases hc : canonicalizeWith g O.order with
+    | error e => simp [hc, bind, Except.bind] at h
+    | ok v =>
+      obtain ⟨c, r, k⟩ := v
+      obtain ⟨p, hp', hr, _⟩ := canonicalize_unfold hc
+      obtain ⟨hpl, hpw, hps, _, _⟩ := partition_spec copySpec mapAttrsSpec g .invariantCode gw gs p hp'
+      unfold refinePartitions refineLoop at hr
+      cases hq : partitionMoleculeByAttribute p .partition with
+      | error e => simp [hq, bind, Except.bind] at hr
+      | ok q =>
+        obtain ⟨hql, _, _, _, _⟩ := partition_spec copySpec mapAttrsSpec p .partition hpw hps q hq
+        have : getNumberOfPartitions q = .error .valueError := by
+          unfold getNumberOfPartitions
+          have : q.nodes = [] := by
+            have : q.labels = [] := by rw [hql, hpl, hg]
+            simpa [Graph.labels] using this
+          simp [this]
+        simp [hq, this, bind, Except.bind] at hr
+  have hattrs : ∀ a ∈ H.labels, ∃ x, H.attrs? a = some x ∧ x.z.isSome ∧ x.inv.isSome := by
+    intro a ha
+    obtain ⟨x, hx⟩ := Graph.attrs?_some_of_mem ha
+    obtain ⟨z, hz, _, hi, _, _⟩ := (Hm a ha x hx).chem
+    exact ⟨x, hx, by simp [hz], by simp [hi]⟩
+  obtain ⟨s', hs'⟩ := pipeline_total O.order O.perm H Hw Hs hne hattrs
+  have := tucan_invariant O iso hchem gw gs Hw Hs h hs'
+  rw [this]; exact hs'
+
+theorem C11_oracle_contract_inhabited : Nonempty CanonOracle := CanonOracle.nonempty
+
+/-- non-vacuity: a concrete spelling is accepted by the front end -/
+example : (parseTucan [.lit ['C'], .lit ['2'], .lit ['/'], .lit ['('], .lit ['2'], .lit ['-'], .lit ['1'], .lit [')']]).isSome = true := by
+  decide +kernel
 
 end Tucan
